@@ -115,6 +115,14 @@ def run(ctx):
             extra.append({"seed": ctx.seed, "jitter": 0.0, "payloads": {"f": {"flavour": "threading"}, "a1": {"flavour": "asyncio", "cleanup": 1}, "late": {"flavour": late, "args": [1]}},
                           "script": [{"op": "adopt", "p": "f"}, {"op": "adopt", "p": "a1"}, {"op": "accept"}, {"op": "wait_running"}, {"op": "wait_start", "p": "f"}, {"op": "wait_start", "p": "a1"}] + trig
                           + [{"op": "wait_end"}, {"op": "adopt", "p": "late", "ctx": "thread", "force": True}, {"op": "sleep", "ms": 100}], "shape": "targeted-adopt-after-the-run-ended"})
+    # restart after a graceful stop: what is adopted, and the services created, between the two
+    # runs of the same runtime are started by the second run (validated as an epoch of its own)
+    for k, f in enumerate(scen.FLAVS):
+        extra.append({"seed": ctx.seed + k, "jitter": 0.0, "reaccept": True, "epoch": 2, "payloads": {"a1": {"flavour": "asyncio", "cleanup": 1}, "q": {"flavour": f, "args": [k]}}, "services": {"s1": {"flavour": scen.FLAVS[(k + 1) % 3]}},
+                      "script": [{"op": "adopt", "p": "a1"}, {"op": "accept"}, {"op": "wait_running"}, {"op": "wait_start", "p": "a1"}, {"op": "shutdown", "ctx": "thread", "wait": True}, {"op": "wait_end", "timeout": 4.0},
+                                 {"op": "new_service", "s": "s1", "ctx": "driver", "force": True}, {"op": "adopt", "p": "q", "ctx": "thread", "force": True}, {"op": "reaccept_start"},
+                                 {"op": "wait_start", "p": "q", "force": True}, {"op": "wait_start", "p": "s1", "force": True}, {"op": "step", "p": "s1", "force": True}, {"op": "step", "p": "q", "force": True},
+                                 {"op": "polls", "n": 2, "force": True}], "shape": "targeted-restart-after-graceful-stop"})
     # a burst of adoptions from inside one synchronous step of a coroutine payload (nothing
     # can drain a hand-over buffer meanwhile): "for all numbers of payloads"
     for f, n in (("trio", 270), ("asyncio", 60)):
